@@ -126,7 +126,7 @@ def run(p, led, tier):
         "text is keyed on less than the bindings.")
     led.not_decided = ["equality of the rendered text with a left-to-right reference expansion (whole-grammar equivalence)"]
     led.assumptions = ["filters are arbitrary str→str callbacks (their output is a source)"]
-    led.rule("C12-R1", "no step scans for template syntax in text that already contains unescaped bound values / items / defaults / included renderings", 5)
+    led.rule("C12-R1", "no step scans for template syntax in text that already contains unescaped bound values / items / defaults / included renderings", 2)
     led.rule("C12-R2", "missing simple variable ⇒ warning; strict mode raises before rendering; unknown include ⇒ explicit marker", 3)
 
     _CTX["module"], _CTX["cls"] = rib.module, rib
